@@ -272,7 +272,8 @@ def _mk_hfunc(spec):
 class _Obj:
     """a printable object of a history with its uniform rendering interface"""
 
-    def __init__(self, spec, enums, enum_cls=None):
+    def __init__(self, spec, enums, src=None, fmts=()):
+        """src: the table whose format object is taken (spec["fmt_of"]); fmts: formats assigned afterwards"""
         from ak.ppobj import PrettyPrinter, PPTable, PPRecordFmt
         self.spec = spec
         self.kind = spec["kind"]
@@ -280,6 +281,10 @@ class _Obj:
         if k == "pp":
             self.printer = PrettyPrinter(fmt_json=spec.get("json", False))
             self.value = _val(spec["value"])
+        elif k == "table" and "fmt_of" in spec:
+            self.table = PPTable([tuple(_val(x) for x in r) for r in spec["records"]], fmt_obj=src.table.fmt,
+                                 header=spec.get("header"), footer=spec.get("footer"),
+                                 limits=tuple(spec["limits"]) if spec.get("limits") else None)
         elif k == "table":
             types_ = {f: enums[e] for f, e in spec.get("types", {}).items()}
             titles = {f: _val(t) for f, t in spec.get("titles", {}).items()} or None
@@ -297,6 +302,11 @@ class _Obj:
             self.func = _mk_hfunc(spec)
         else:
             raise ValueError("unknown kind " + k)
+        for f in fmts:
+            self.set_fmt(f)
+
+    def set_fmt(self, fmt):
+        self.table.fmt = fmt
 
     @property
     def proto_kind(self):
@@ -322,6 +332,12 @@ class _Obj:
         if k == "ghist":
             return self.report.ch_text(**kw)
         raise ValueError(k)
+
+    def iter_lines(self, conf, no_color, palette=None):
+        """lazy iteration over the result (for the kinds that have lazy results)"""
+        if self.kind in ("hcmd", "rec"):
+            return iter(self.lines(conf, no_color, palette))
+        return iter(self.result(conf, no_color, palette))
 
     def lines(self, conf, no_color, palette=None):
         """iteration over the result: list of generated lines (CHText or list of chunks)"""
@@ -428,20 +444,39 @@ def _probe_enum_class():
     return _ProbeEnum
 
 
-def shape_of(spec, enum_specs, vregs):
-    """(top class id, sub-palette requests, lines) of a fresh copy of the object; `vregs[e]` numbers the
-    cell values of enum type e (by dict identity, as the cell cache does) consistently over a case"""
+def _fresh(objs, o, enums, fmts=()):
+    """a fresh copy of object `o` of a case (and of the table it takes its format object from, never printed)"""
+    spec = objs[o]
+    src = _fresh(objs, spec["fmt_of"], enums) if "fmt_of" in spec else None
+    return _Obj(spec, enums, src, fmts)
+
+
+def shape_of(objs, o, enum_specs, vregs, fmts=()):
+    """(top class id, sub-palette requests, lines with the requests made since the previous line) of a fresh
+    copy of the object; `vregs[e]` numbers the cell values of enum type e (by dict identity, as the cell cache
+    does) consistently over a case"""
     pe = _probe_enum_class()
     enums = {}
     for e, es in enum_specs.items():
         ft = _mk_enum(es, pe)
         ft._eid, ft._vreg = int(e), vregs.setdefault(e, {})
         enums[e] = ft
-    obj = _Obj(spec, enums)
+    obj = _fresh(objs, o, enums, fmts)
     log = []
     probe = _mk_probe(obj.top_class(), log)
-    lines = []
-    for line in obj.lines(None, False, palette=probe):
+    lines, subs, seen = [], [], 0
+    it = obj.iter_lines(None, False, palette=probe)
+    while True:
+        try:
+            line = next(it)
+        except StopIteration:
+            break
+        reqs = []
+        for c in log[seen:]:
+            if c not in subs:
+                subs.append(c)
+                reqs.append(c)
+        seen = len(log)
         raw = isinstance(line, (list, tuple))
         chunks = []
         for c in (line if raw else line.chunks):
@@ -451,9 +486,8 @@ def shape_of(spec, enum_specs, vregs):
                 assert c.c_prefix[0] == "\x00" and c.c_prefix[-1] == "\x01", repr(c.c_prefix)
                 tag = c.c_prefix[1:-1]
             chunks.append("%s=%s" % (tag, "" if c.text == "" else enc_str(c.text)))
-        lines.append(";".join(["r" if raw else "m"] + chunks))
-    subs = []
-    for c in log:
+        lines.append(";".join([("r" if raw else "m") + ",".join(map(str, reqs))] + chunks))
+    for c in log[seen:]:
         if c not in subs:
             subs.append(c)
     return "%d %s %s" % (_cid(obj.top_class()), ",".join(map(str, subs)) or "-", "/".join(lines) or "-")
@@ -641,8 +675,18 @@ def _replay(case, before=None, after=None):
     gc.freeze()       # what exists now is not this history's garbage: keeps the forced collections cheap
     failed = set()        # configurations whose constructor raised: what refers to them is skipped
     out = []
+    results, iters, fmts, res_conf = {}, {}, {}, {}
+
+    def get_obj(o):
+        if o not in objs:
+            spec = case["objs"][o]
+            src = get_obj(spec["fmt_of"]) if "fmt_of" in spec else None
+            objs[o] = _Obj(spec, enums, src, fmts.get(o, ()))
+        return objs[o]
     for i, op in enumerate(case["ops"]):
-        if op[0] in ("drop", "setglobal") and op[1] in failed or op[0] == "render" and op[2] in failed:
+        if (op[0] in ("drop", "setglobal") and op[1] in failed or op[0] == "render" and op[2] in failed
+                or op[0] == "res" and op[3] in failed
+                or op[0] in ("str", "iter") and op[-1] not in results or op[0] == "next" and op[1] not in iters):
             out.append("skip")
             continue
         try:
@@ -673,8 +717,7 @@ def _replay(case, before=None, after=None):
                 out.append("ok")
             elif op[0] == "render":
                 _, o, k, mode = op
-                if o not in objs:
-                    objs[o] = _Obj(case["objs"][o], enums)
+                get_obj(o)
                 conf = None if k == "g" else confs[k]
                 cur = conf if conf is not None else color.get_global_colors_config()
                 if before is not None:
@@ -685,6 +728,45 @@ def _replay(case, before=None, after=None):
                 if after is not None:
                     after(i, cur)
                 conf = cur = None       # no hidden reference keeps a dropped configuration alive
+            elif op[0] == "setfmt":
+                fmts[op[1]] = tuple(fmts.get(op[1], ())) + (op[2],)
+                if op[1] in objs:
+                    objs[op[1]].set_fmt(op[2])
+                out.append("ok")
+            elif op[0] == "res":                 # r = obj.ch_text(...): nothing is rendered yet
+                _, r, o, k, mode = op
+                conf = None if k == "g" else confs[k]
+                cur = conf if conf is not None else color.get_global_colors_config()
+                res_conf[r] = cur
+                if before is not None:
+                    before(("res", r), cur)
+                results[r] = get_obj(o).result(conf, mode == "n")
+                _capture(confs)
+                out.append("ok")
+                conf = cur = None
+            elif op[0] == "str":
+                raw = str(results[op[1]])
+                _capture(confs)
+                out.append("ok " + enc_str(raw))
+                if after is not None:
+                    after(i, res_conf[op[1]])
+            elif op[0] == "iter":
+                iters[op[1]] = (iter(results[op[2]]), op[2])
+                out.append("ok")
+            elif op[0] == "next":
+                it, r = iters[op[1]]
+                got, n = [], 0
+                while n < op[2]:
+                    n += 1
+                    try:
+                        got.append(_line_str(next(it)))
+                    except StopIteration:
+                        break
+                it = None
+                _capture(confs)
+                out.append("ok %d%s" % (len(got), "".join(" " + enc_str(l) for l in got)))
+                if after is not None:
+                    after(i, res_conf[r])
             elif op[0] == "gp":
                 acc = list(color.GlobalPalette._LOCAL_SYNTAX)[op[1]]
                 out.append("ok " + enc_str(str(getattr(color.global_palette, acc)("x"))))
@@ -712,7 +794,15 @@ def _finish(case):
     """derives the protocol lines from the structured operations (shapes from fresh copies of the objects)"""
     from ak.color import ColorsConfig
     vregs, lines, shapes = {}, [], {}
-    live_enums = {}
+    live_enums, fmts = {}, {}
+
+    def shape(o):
+        spec = case["objs"][o]
+        need = {e: live_enums[e] for e in spec.get("types", {}).values()}
+        key = (o, tuple(sorted(need)), fmts.get(o, ()))
+        if key not in shapes:
+            shapes[key] = shape_of(case["objs"], o, need, vregs, fmts.get(o, ()))
+        return shapes[key]
     for op in case["ops"]:
         if op[0] == "conf":
             c = case["confs"][op[1]]
@@ -728,12 +818,20 @@ def _finish(case):
         elif op[0] == "render":
             _, o, k, mode = op
             spec = case["objs"][o]
-            need = {e: live_enums[e] for e in spec.get("types", {}).values()}
-            key = (o, tuple(sorted(need)))
-            if key not in shapes:
-                shapes[key] = shape_of(spec, need, vregs)
             kind = {"rec": "rec", "hcmd": "hcmd"}.get(spec["kind"], "obj")
-            lines.append("render %s %s %s %s %s" % (o, kind, k, mode, shapes[key]))
+            lines.append("render %s %s %s %s %s" % (o, kind, k, mode, shape(o)))
+        elif op[0] == "setfmt":
+            fmts[op[1]] = tuple(fmts.get(op[1], ())) + (op[2],)
+            lines.append("setfmt %s %s" % (op[1], enc_str(op[2])))
+        elif op[0] == "res":
+            _, r, o, k, mode = op
+            lines.append("res %s %s %s %s %s" % (r, o, k, mode, shape(o)))
+        elif op[0] == "str":
+            lines.append("str %s" % op[1])
+        elif op[0] == "iter":
+            lines.append("iter %s %s" % (op[1], op[2]))
+        elif op[0] == "next":
+            lines.append("next %s %d" % (op[1], op[2]))
         elif op[0] == "gp":
             lines.append("gp %d" % op[1])
         elif op[0] == "gpi":
@@ -785,13 +883,16 @@ def _reference(case, i, descr, nc, mode):
     import ak.color as color
     _reset()
     op = case["ops"][i]
-    live = {}
+    o = op[2] if op[0] == "res" else op[1]
+    live, fmts = {}, ()
     for p in case["ops"][:i]:
         if p[0] == "enum":
             live[p[1]] = _mk_enum(case["enums"][p[1]])
         elif p[0] == "dropenum":
             live.pop(p[1], None)
-    obj = _Obj(case["objs"][op[1]], live)
+        elif p[0] == "setfmt" and p[1] == o:
+            fmts += (p[2],)
+    obj = _fresh(case["objs"], o, live, fmts)
     conf = color.ColorsConfig(dict(descr), no_color=nc)
     if obj.kind == "hcmd":
         color.set_global_colors_config(conf)
@@ -814,6 +915,7 @@ def oracle(case, replies):
             info[i] = [None, None, conf.no_color]
         info[i][1] = _flat_descr(conf)
     late = None
+    pos, res_of_iter, res_at = {}, {}, {}
     try:
         _replay(case, before, after)
         for i, op in enumerate(case["ops"]):
@@ -828,7 +930,49 @@ def oracle(case, replies):
                 if rep != "ok " + enc_str(str(fresh.get_color(synt)("x"))):
                     return "synced: global_palette %s does not show the colour of the global configuration in force" % (op[1],)
                 continue
-            if op[0] != "render" or rep == "skip":
+            if rep == "skip":
+                continue
+            if op[0] == "iter":
+                pos[op[1]] = 0
+                res_of_iter[op[1]] = op[2]
+            if op[0] == "res":
+                res_at[op[1]] = i
+            if op[0] in ("str", "next"):
+                # a lazy result consumed later / partly / interleaved gives what an immediate consumption gives
+                r = op[1] if op[0] == "str" else res_of_iter[op[1]]
+                ri = res_at[r]
+                _, _, o, k, rmode = case["ops"][ri]
+                kind = case["objs"][o]["kind"]
+                what = "result %s of object %s (%s) under configuration %s" % (r, o, kind, k)
+                if not rep.startswith("ok"):
+                    return "render-raises: %s -> %s" % (what, rep)
+                nc = rmode == "n"
+                f = _fields(rep)
+                plain = _fields(_reference(case, ri, {}, False, "m"))
+                d_before, d_after, conf_nc = info[("res", r)][0], info[i][1], info[i][2]
+                full = _fields(_reference(case, ri, d_after, conf_nc, "m" if nc else "l"))
+                if op[0] == "str":
+                    got, ref, pref = [f[0]], [full[0]], [plain[0]]
+                else:
+                    n = int(rep.split()[1])
+                    got = f[1:1 + n]
+                    a = pos[op[1]]
+                    pos[op[1]] = a + n
+                    ref, pref = full[2:][a:a + op[2]], plain[2:][a:a + op[2]]
+                    if len(ref) != len(got):
+                        return "lines: %s: the iterator gives %d line(s) where a fresh one gives %d" % (what, len(got), len(ref))
+                for g, rf, pf in zip(got, ref, pref):
+                    if _strip(g) != pf:
+                        return "layout: %s: text without escape sequences differs from the no-colour rendering" % what
+                    if nc and g != pf:
+                        return "nocolor-esc: %s: the no-colour text has escape sequences" % what
+                    if g != rf:
+                        if _straddles(d_before, d_after) and not nc:
+                            late = late or "late: %s is rendered differently in a fresh state" % what
+                        else:
+                            return "history: %s consumed later / partly is rendered differently in a fresh state" % what
+                continue
+            if op[0] != "render":
                 continue
             _, o, k, mode = op
             kind = case["objs"][o]["kind"]
@@ -1217,9 +1361,11 @@ def _rand_obj(rng, enum_ids, enums):
     return _rand_hcmd(rng)
 
 
-def _shape_ok(spec, enums):
+def _shape_ok(spec, enums, objs=None):
     try:
-        shape_of(spec, {e: enums[e] for e in spec.get("types", {}).values()}, {})
+        all_objs = dict(objs or {})
+        all_objs["?"] = spec
+        shape_of(all_objs, "?", {e: enums[e] for e in spec.get("types", {}).values()}, {})
         return True
     except Exception:
         return False
@@ -1377,12 +1523,210 @@ def _gen_history(rng, tier, late, pattern):
     return _finish(case)
 
 
+def _service_table(rng, enum_ids, enums):
+    """a table with break lines and / or a `... n records skipped` line"""
+    vals = rng.sample([1, 2, 3, "x", "yy", None], 3)
+    n = rng.randrange(4, 9)
+    keys = [rng.choice(vals) for _ in range(n)]
+    if rng.random() < 0.5:
+        keys.sort(key=str)
+    use_enum = bool(enum_ids) and rng.random() < 0.4
+    spec = {"kind": "table", "fields": ["id", "grp", "v"], "records": []}
+    for i, kx in enumerate(keys):
+        v = _enum_cell(rng, enums[enum_ids[0]]) if use_enum else _rand_scalar(rng)
+        spec["records"].append([i, str(kx), v])
+    if use_enum:
+        spec["types"] = {"v": enum_ids[0]}
+    how = rng.choice(["break", "skip", "both", "both"])
+    fmt = "id,grp!,v" if how != "skip" else "id,grp,v"
+    if how != "break":
+        fmt += ";%d:%d" % (rng.randrange(0, 3), rng.randrange(0, 3))
+    spec["fmt"] = fmt
+    if rng.random() < 0.3:
+        spec["header"] = _rand_text(rng)
+    return spec
+
+
+def _lazy_obj(rng, enum_ids, enums):
+    r = rng.random()
+    if r < 0.5:
+        return _service_table(rng, enum_ids, enums)
+    if r < 0.7:
+        return _rand_table(rng, enum_ids, enums)
+    if r < 0.9:
+        return {"kind": "pp", "json": rng.random() < 0.3, "value": _rand_json(rng, 3)}
+    return _rand_ghist(rng)
+
+
+def _gen_lazy(rng, concurrent):
+    """lazy result objects: requested under one configuration, consumed later / partly / interleaved with other
+    renderings, with replaced global configurations and with a second consumer of the same object"""
+    enums = {"0": _rand_enum(rng)}
+    objs = {}
+    while len(objs) < 2:
+        spec = _service_table(rng, ["0"], enums) if (concurrent and not objs) else _lazy_obj(rng, ["0"], enums)
+        if _shape_ok(spec, enums):
+            objs[str(len(objs))] = spec
+    if rng.random() < 0.5:
+        spec = _rand_obj(rng, ["0"], enums)
+        if _shape_ok(spec, enums):
+            objs["2"] = spec
+    confs = {"1": _rand_conf(rng, False), "2": _rand_conf(rng, False)}
+    ops = [["enum", "0"], ["conf", "1"], ["conf", "2"]]
+    if rng.random() < 0.6:
+        ops.append(["setglobal", rng.choice("12")])
+    nres = nit = 0
+    open_iters, results = {}, []
+
+    def conf():
+        return rng.choice(["1", "2", "g", "g"])
+
+    def other():
+        r = rng.random()
+        if r < 0.35:
+            ops.append(["setglobal", rng.choice("12")])
+        elif r < 0.8:
+            o = rng.choice(sorted(objs))
+            k = "g" if objs[o]["kind"] == "hcmd" else conf()
+            ops.append(["render", o, k, _modes(objs[o], rng)])
+        else:
+            ops.append(["gp", rng.randrange(6)])
+    for _ in range(rng.randrange(1, 4)):
+        o = "0" if (concurrent or rng.random() < 0.6) else "1"
+        r = str(nres)
+        nres += 1
+        ops.append(["res", r, o, conf(), rng.choice("ccn")])
+        results.append(r)
+        if rng.random() < 0.6:
+            other()
+        if concurrent or rng.random() < 0.6:
+            i = str(nit)
+            nit += 1
+            ops.append(["iter", i, r])
+            open_iters[i] = True
+            if rng.random() < 0.7:
+                ops.append(["next", i, rng.randrange(1, 4)])
+    for _ in range(rng.randrange(2, 7)):
+        r = rng.random()
+        if r < 0.3 and results:
+            ops.append(["str", rng.choice(results)])
+        elif r < 0.65 and open_iters:
+            i = rng.choice(sorted(open_iters))
+            n = rng.choice([1, 1, 2, 3, 99])
+            ops.append(["next", i, n])
+            if n == 99:
+                del open_iters[i]
+        else:
+            other()
+    for i in sorted(open_iters):
+        ops.append(["next", i, 99])
+    for r in results:
+        if rng.random() < 0.5:
+            ops.append(["str", r])
+    case = {"ops": ops, "confs": confs, "enums": enums, "objs": objs,
+            "meta": {"kind": "lazy-concurrent" if concurrent else "lazy"}}
+    return _finish(case)
+
+
+def _gen_globalmix(rng):
+    """the implicit global configuration (colors_conf=None) mixed with the same configurations given explicitly"""
+    enums = {"0": _rand_enum(rng)}
+    objs = {}
+    plain = _rand_table(rng, [], enums)
+    while not plain["records"] or not _shape_ok(plain, enums):
+        plain = _rand_table(rng, [], enums)
+    et = _rand_table(rng, ["0"], enums)
+    while not et.get("types") or not et["records"] or not _shape_ok(et, enums):
+        et = _rand_table(rng, ["0"], enums)
+    rec = _rand_rec(rng, ["0"], enums)
+    objs = {"0": plain, "1": et}
+    if _shape_ok(rec, enums):
+        objs["2"] = rec
+    confs = {"1": _rand_conf(rng, False), "2": _rand_conf(rng, False)}
+    ops = [["enum", "0"], ["conf", "1"], ["conf", "2"], ["setglobal", "1"]]
+    for _ in range(rng.randrange(1, 4)):
+        ops.append(["render", rng.choice(["0", "0", "2"] if "2" in objs else ["0"]), "g", rng.choice("ccn")])
+    if rng.random() < 0.5:
+        ops.append(["res", "0", rng.choice("01"), "g", "c"])
+    ops.append(["setglobal", "2"])
+    tail = [["render", "1", "1", "c"], ["render", "0", "1", "c"], ["render", "1", "g", "c"]]
+    if "2" in objs:
+        tail.append(["render", "2", "1", "c"])
+    rng.shuffle(tail)
+    ops += tail[:rng.randrange(1, len(tail) + 1)]
+    if any(op[0] == "res" for op in ops):
+        ops.append(["str", "0"])
+    case = {"ops": ops, "confs": confs, "enums": enums, "objs": objs, "meta": {"kind": "global-mix"}}
+    return _finish(case)
+
+
+_LONG = ["Bartholomew", "Maximilian the second", "a rather long cell text", 1234567890123]
+_SHORT = ["Al", "Bo", 1, None, "x"]
+
+
+def _gen_formats(rng):
+    """format objects shared between tables (fmt_obj=other.fmt) and re-formatting after a printing"""
+    enums = {"0": _rand_enum(rng)}
+    fields = ["id", "name", "st"]
+    use_enum = rng.random() < 0.4
+
+    def recs(pool, n):
+        return [[i + 1, rng.choice(pool), _enum_cell(rng, enums["0"]) if use_enum else rng.choice(_SHORT)] for i in range(n)]
+    a = {"kind": "table", "fields": fields, "records": recs(_SHORT, rng.randrange(1, 4))}
+    if use_enum:
+        a["types"] = {"st": "0"}
+    if rng.random() < 0.5:
+        a["fmt"] = rng.choice(["id,name,st", "id,name:2-30,st", "name,id", "id,name!,st", "id,name,st;2:1"])
+    b = {"kind": "table", "fmt_of": "0", "records": recs(_LONG + _SHORT, rng.randrange(1, 5))}
+    if use_enum:
+        b["types"] = {"st": "0"}
+    # a table whose limits hide the long rows
+    mixed = recs(_SHORT, 1) + recs(_LONG, rng.randrange(1, 3)) + recs(_SHORT, rng.randrange(1, 3))
+    for j, r in enumerate(mixed):
+        r[0] = j + 1
+    c = {"kind": "table", "fields": fields, "records": mixed, "fmt": "id,name,st;1:1"}
+    if use_enum:
+        c["types"] = {"st": "0"}
+    objs = {"0": a, "1": b, "2": c}
+    confs = {"1": _rand_conf(rng, False)}
+    ops = [["enum", "0"], ["conf", "1"]]
+
+    def k():
+        return rng.choice(["1", "g"])
+    if rng.random() < 0.6:
+        order = [["render", "0", k(), rng.choice("cnl")], ["render", "1", k(), rng.choice("cnl")]]
+        if rng.random() < 0.25:
+            order.reverse()
+        ops += order
+        if rng.random() < 0.5:
+            ops.append(["render", "0", k(), "c"])
+    else:
+        ops.append(["render", "2", k(), rng.choice("cn")])
+        ops.append(["setfmt", "2", rng.choice([";*", ";5:5", ";0:9", "id,name", ";2:2"])])
+        ops.append(["render", "2", k(), rng.choice("cnl")])
+        if rng.random() < 0.5:
+            ops.append(["setfmt", "2", rng.choice([";1:1", ";*", "name:3-6"])])
+            ops.append(["render", "2", k(), "c"])
+    case = {"ops": ops, "confs": confs, "enums": enums, "objs": objs, "meta": {"kind": "formats"}}
+    return _finish(case)
+
+
 def gen_cases(rng, tier):
     n = 600 if tier == "quick" else 9000
     for i in range(n):
         late = i % 5 == 4
-        pattern = "reuse" if i % 3 == 0 else "aba" if i % 10 == 7 else "random"
-        yield _gen_history(rng, tier, late, pattern)
+        j = i % 20
+        if j in (3, 13):
+            yield _gen_lazy(rng, False)
+        elif j in (8, 18):
+            yield _gen_lazy(rng, True)
+        elif j == 11:
+            yield _gen_globalmix(rng)
+        elif j in (5, 16):
+            yield _gen_formats(rng)
+        else:
+            pattern = "reuse" if i % 3 == 0 else "aba" if i % 10 == 7 else "random"
+            yield _gen_history(rng, tier, late, pattern)
 
 
 def search_cases(rng, tier):
@@ -1393,6 +1737,7 @@ def search_cases(rng, tier):
 
 def _valid(case):
     confs, enums = set(), set()
+    results, iters = {}, set()
     for op in case["ops"]:
         if op[0] == "conf":
             if op[1] in confs:
@@ -1416,6 +1761,30 @@ def _valid(case):
                 return False
             if not set(case["objs"][op[1]].get("types", {}).values()) <= enums:
                 return False
+        elif op[0] == "res":
+            if op[3] != "g" and op[3] not in confs:
+                return False
+            if op[1] in results or not set(case["objs"][op[2]].get("types", {}).values()) <= enums:
+                return False
+            results[op[1]] = op[2]
+        elif op[0] == "str":
+            if op[1] not in results:
+                return False
+        elif op[0] == "iter":
+            if op[2] not in results or op[1] in iters:
+                return False
+            iters.add(op[1])
+        elif op[0] == "next":
+            if op[1] not in iters:
+                return False
+        elif op[0] == "setfmt":
+            if op[1] in results.values() or case["objs"][op[1]]["kind"] != "table":
+                return False
+        if op[0] == "dropenum" and any(op[1] in case["objs"][o].get("types", {}).values() for o in results.values()):
+            return False
+    for o, spec in case["objs"].items():
+        if "fmt_of" in spec and any(op[0] == "setfmt" and op[1] == spec["fmt_of"] for op in case["ops"]):
+            return False
     return True
 
 
@@ -1469,13 +1838,15 @@ def shrink(case):
 
 def observable(i, line):
     # replies to conf / drop / setglobal / enum lines only acknowledge the operation
-    return line.split()[0] in ("render", "gp", "gpi", "conf")
+    return line.split()[0] in ("render", "gp", "gpi", "conf", "str", "next")
 
 
 def nontrivial(case, replies):
     """at least two renderings and a configuration change (drop / second configuration / new global) in between"""
     kinds = [op[0] for op in case["ops"]]
-    return kinds.count("render") >= 2 and (kinds.count("conf") >= 2 or "drop" in kinds or "setglobal" in kinds)
+    shown = kinds.count("render") + kinds.count("str") + kinds.count("next")
+    return shown >= 2 and (kinds.count("conf") >= 2 or "drop" in kinds or "setglobal" in kinds or "setfmt" in kinds
+                           or "res" in kinds)
 
 
 _STABLE = None
